@@ -89,6 +89,17 @@ def check_slot_writers(ctx):
     ctx.rule('C19.2', 'order on every path: download -> checksum comparison -> parse -> dump -> handle closed -> publish; the dumped object is the parsed '
                       'array; the parsed file is the one _fetch_remote returns, which is the one urlretrieve wrote and _sha256 hashed; a mismatch raises OSError; '
                       'the validate_checksum flag reaches _fetch_remote unchanged')
+    # forced refresh of an existing entry: the download path runs and publishes just the same (the entry must not stay stale)
+    fi2, ev2, _, _ = evaluate(ctx, {'download_if_missing': Const(True), 'download_even_if_available': Const(True), 'validate_checksum': Const(True)}, available=True)
+    if not ev2.issues:
+        libs2 = [e for e in ev2.events if e.kind == 'lib']
+        n_dl = len([e for e in libs2 if e.data['name'] == 'urllib.request.urlretrieve'])
+        pubs2 = [e for e in libs2 if e.data['name'] in PUBLISH_FUNCS]
+        dumps2 = [e for e in libs2 if e.data['name'] == 'pickle.dump']
+        extra2 = [g for g in pubs2[0].guard if not (dumps2 and any(veq(g, h) for h in dumps2[0].guard))] if len(pubs2) == 1 else []
+        ctx.check(n_dl >= 1 and len(pubs2) == 1 and not extra2, 'C19.1',
+                  'forced refresh (entry present, download_even_if_available): the freshly verified data is published over the old entry',
+                  f"downloads: {n_dl}; publishes: {[(e.data['name'], e.loc(), [str(g)[:60] for g in e.guard]) for e in pubs2]}", fi2.loc(), fi2.qualname, 'pub-refresh')
     for gz in (Const(False), Const(True)):
         fi, ev, res, args = evaluate(ctx, {'download_if_missing': Const(True), 'download_even_if_available': Const(True), 'validate_checksum': Const(True)},
                                      available=False, gzip=gz)
@@ -147,6 +158,11 @@ def check_slot_writers(ctx):
         parse = [e for e in libs if e.data['name'] == 'numpy.loadtxt']
         dump = [e for e in libs if e.data['name'] == 'pickle.dump']
         sha = [e for e in ev.events if e.kind == 'call' and e.data['callee'] is not None and e.data['callee'].qualname == SHA]
+        if len(dump) == 1:
+            extra = [g for g in pub.guard if not any(veq(g, h) for h in dump[0].guard)]
+            ctx.check(not extra, 'C19.1', f"{tag}: what was downloaded, verified and written is always published (the cache entry is the data just verified, "
+                                          f"also on a forced refresh)", f"the rename at {pub.loc()} happens only when {[str(g)[:100] for g in extra]}", pub.loc(), fi.qualname,
+                      f"pub-always:{tag}")
         ok_counts = len(dl) == 1 and len(parse) == 1 and len(dump) == 1 and len(sha) == 1
         ctx.check(ok_counts, 'C19.2', f"{tag}: one download, one hash, one parse, one dump", f"download {len(dl)}, hash {len(sha)}, parse {len(parse)}, dump {len(dump)}",
                   fi.loc(), fi.qualname, f"counts:{tag}")
